@@ -1137,7 +1137,7 @@ def plan_C13(tier, rng):
                     if not hexa and sepc == 95 and "_" not in v and not any(n in ("required_digits", "no_special") for (n, a) in f["calls"]):
                         cs.parse(ep, ty, 0, v, ["rf"], wo=True, opts=o)
                 if ne == 0 and nf_ == 0:
-                    cs.parse(ep, "u128" if ni > 19 else "i64", f["id"], v, ["rf"], wo=True, opts=dict(PI_DEFAULT), tag="long-separated-int")
+                    cs.parse(ep, "u64" if ni > 9 else "i32", f["id"], v, ["rf"], wo=True, opts=dict(PI_DEFAULT), tag="long-separated-int")
             cs.parse(ep, "f64", f["id"], variants[-1], ["rf"], wo=True, opts=o, partial=True)
     return cs, [model], {"input_families": cs.tags, "configurations": ["rf"]}
 
